@@ -124,11 +124,48 @@ func (verifMessages) DeleteList(topic string, delID int, forUser types.Uid, rang
 	return nil
 }
 
+// verifVisible: the message is in the topic, not hard-deleted, and not soft-deleted for forUser.
+func (s *verifStoreT) visible(m *types.Message, topic string, forUser types.Uid) bool {
+	if m.Topic != topic || m.DelId != 0 {
+		return false
+	}
+	for _, d := range s.dellog {
+		if d.Topic != topic || (d.DeletedFor != "" && d.DeletedFor != forUser.String()) {
+			continue
+		}
+		for _, r := range d.SeqIdRanges {
+			hi := r.Hi
+			if hi == 0 {
+				hi = r.Low + 1
+			}
+			if r.Low <= m.SeqId && m.SeqId < hi {
+				return false
+			}
+		}
+	}
+	return true
+}
+
+// GetAll implements the documented QueryOpt meaning: ids in [Since, Before) (0 = open end), newest first,
+// at most Limit (0 = the configured maximum, here 1024), visible to forUser.
 func (verifMessages) GetAll(topic string, forUser types.Uid, opt *types.QueryOpt) ([]types.Message, error) {
 	s := verifStore
+	lower, upper, limit := 0, 1<<31-1, 1024
+	if opt != nil {
+		if opt.Since > 0 {
+			lower = opt.Since
+		}
+		if opt.Before > 0 {
+			upper = opt.Before - 1
+		}
+		if opt.Limit > 0 && opt.Limit < limit {
+			limit = opt.Limit
+		}
+	}
 	var out []types.Message
-	for _, m := range s.msgs {
-		if m.Topic != topic {
+	for i := len(s.msgs) - 1; i >= 0 && len(out) < limit; i-- {
+		m := s.msgs[i]
+		if !s.visible(&m, topic, forUser) || m.SeqId < lower || m.SeqId > upper {
 			continue
 		}
 		out = append(out, m)
@@ -136,8 +173,33 @@ func (verifMessages) GetAll(topic string, forUser types.Uid, opt *types.QueryOpt
 	return out, nil
 }
 
+// GetDeleted: the deletion log entries of the topic that apply to forUser with transaction id in
+// [Since, Before), flattened and normalised like store.messagesMapper.GetDeleted does.
 func (verifMessages) GetDeleted(topic string, forUser types.Uid, opt *types.QueryOpt) ([]types.Range, int, error) {
-	return nil, 0, nil
+	s := verifStore
+	lower, upper := 0, 1<<31-1
+	if opt != nil {
+		if opt.Since > 0 {
+			lower = opt.Since
+		}
+		if opt.Before > 1 {
+			upper = opt.Before - 1
+		}
+	}
+	var ranges []types.Range
+	maxID := 0
+	for _, d := range s.dellog {
+		if d.Topic != topic || (d.DeletedFor != "" && d.DeletedFor != forUser.String()) || d.DelId < lower || d.DelId > upper {
+			continue
+		}
+		if d.DelId > maxID {
+			maxID = d.DelId
+		}
+		ranges = append(ranges, d.SeqIdRanges...)
+	}
+	sort.Sort(types.RangeSorter(ranges))
+	ranges = types.RangeSorter(ranges).Normalize()
+	return ranges, maxID, nil
 }
 
 // --- Subs
